@@ -120,7 +120,7 @@ static int fv_opcode(const char *w) {
         {"getlineno", FV_OP_GETLINENO}, {"newyyin", FV_OP_NEWYYIN}, {"start", FV_OP_START},
         {"atbol", FV_OP_ATBOL}, {"terminate", FV_OP_TERMINATE}, {"flushcur", FV_OP_FLUSHCUR},
         {"grab", FV_OP_GRAB}, {"cont", FV_OP_CONT}, {"include_end", FV_OP_INCLUDE_END},
-        {"tload", FV_OP_TLOAD}, {"tdestroy", FV_OP_TDESTROY}, {NULL, 0} };
+        {"tload", FV_OP_TLOAD}, {"tdestroy", FV_OP_TDESTROY}, {"less3", FV_OP_LESS3}, {NULL, 0} };
     int i; for (i = 0; tab[i].n; i++) if (!strcmp(tab[i].n, w)) return tab[i].op;
     fprintf(stderr, "harness: unknown op %s\n", w); exit(4);
 }
@@ -364,6 +364,13 @@ static void fv_reg(yybuffer b) {
     if (fv_nbufs < FV_MAXBUFS) fv_nbufs++;
 }
 static yybuffer fv_buf(long i) { return (i >= 0 && i < fv_nbufs) ? fv_bufs[i] : NULL; }
+
+#if !defined(FV_BACKEND_C99) && !defined(FV_BACKEND_CXX)
+static void fv_less3(int n FV_DEF_LAST) {
+    FV_GUTS
+    yyless(n);           /* the section-3 definition of the macro */
+}
+#endif
 
 static void fv_buffer_op(int op, long a, long b FV_DEF_LAST) {
     FV_GUTS
